@@ -88,6 +88,11 @@ let parse_prog (text : string) : pinfo =
       let toks = List.filter (fun x -> x <> "") (String.split_on_char ' ' parts.(c + 1)) in
       List.concat_map (fun t ->
           if t.[0] = 'U' then has_u := true;
+          (* harness features added after this driver was written: not interpreted here, the log is skipped *)
+          if t.[0] = 'u' || t.[0] = 'B' || t.[0] = 'M' || t.[0] = 'm' then raise (Unsupported ("operation " ^ String.make 1 t.[0] ^ " (not interpreted by this driver)"));
+          (let n = String.length t in
+           if (t.[0] = 'F' || t.[0] = 'A') && n > 0 && t.[n - 1] = 'i' then raise (Unsupported "a future awaited on the run-on-wake executor (mode i): its polls are made by the waking threads");
+           if (t.[0] = 'F' || t.[0] = 'A' || t.[0] = 'Y') && (try ignore (Str.search_forward (Str.regexp "k[0-9]+l[0-9]+$") t 0); true with Not_found -> false) then raise (Unsupported "a future kept for a while before it is dropped (mode k<n>l<m>)"));
           if (t.[0] = 'F' || t.[0] = 'A') && t.[String.length t - 1] = 's' then sync_objs := fst (num t 1) :: !sync_objs;
           let inner = (try let a = String.index t '[' in String.sub t (a + 1) (String.rindex t ']' - a - 1) with Not_found -> "") in
           if t.[0] <> 'Y' && String.contains inner 'Y' then raise (Unsupported "future_sync nested in another operation's body");
